@@ -155,3 +155,20 @@ Theorem C18_domain_checks_sound :
      NoDup (top_names V d) /\ ~ In "vertices"%string (cell_morph_names V 0 (d_cells d))).
 Proof. exact (conj to_root_domb_sound (conj view_domb_sound doc_domb_sound)). Qed.
 Print Assumptions C18_domain_checks_sound.
+
+(* ---- frame.  The model is functional: `to_root c i` is a NEW connectivity, the arrays a morphology was built from and
+   every other morphology built from them are values that no operation can change.  For two morphologies A, B built from
+   the same arrays and ANY interleaving of re-rootings, each ends as its own sequence alone would leave it, and a
+   morphology that was not re-rooted still has exactly the connectivity it was given (so its segment view and
+   conversion are those of C18_segment_view).  The correspondence run checks the implementation against this:
+   it builds A and B from the same numpy arrays and compares both, and the caller's arrays, after every operation. *)
+Theorem C18_frame : forall (ops : list (who * Z)) (c : list Z),
+    tree_parent c -> (forall o, In o ops -> 0 <= snd o < zlen c) ->
+    exists a b, run_two c c ops = Ok (a, b) /\
+                to_root_seq c (ops_of MA ops) = Ok a /\ to_root_seq c (ops_of MB ops) = Ok b /\
+                Permutation (undirected_edges a) (undirected_edges c) /\
+                Permutation (undirected_edges b) (undirected_edges c) /\
+                tree_parent a /\ tree_parent b /\
+                (ops_of MB ops = [] -> b = c) /\ (ops_of MA ops = [] -> a = c).
+Proof. exact run_two_frame. Qed.
+Print Assumptions C18_frame.
